@@ -13,6 +13,10 @@ import MM.Model.C09
     aadd <agent> <nh> <origin> <metric> <seq> <path>            arm <agent> <origin>   alook <agent>
     Xdisc <peer>   Xage <n>   Xclean <maxAge>   Xsize   Xclear       (X = d | f | a)
     dhas <pattern> <origin>     fhas <key> <origin>     aroutes <agent>  (AgentTable.GetRoutesForAgent)
+    mdlook <name>   mflook <key>   malook <agent>     the same lookups through Manager.LookupDomain /
+                                                      LookupForward / LookupAgent (what the agent's dial path calls)
+    oracle fold <in> <out>   oracle trim <in> <out>   Go's strings.ToLower / strings.TrimSpace of a
+                                                      non-ASCII string (the harness verifies the pair)
 
   Mutators answer `result ; dump`, lookups `none | route <entry>`; names are hex byte strings.
 -/
@@ -30,9 +34,18 @@ def showDKey (k : DKey) : String := (if k.1 then "w:" else "x:") ++ hexTok k.2
 
 structure St where
   self : Nat := 0
+  foldTab : List (Bytes × Bytes) := []
+  trimTab : List (Bytes × Bytes) := []
   d : State DKey DomPay := ⟨0, []⟩
   f : State Bytes FwdPay := ⟨0, []⟩
   a : State Nat Nat := ⟨0, []⟩
+
+/-- `strings.ToLower` / `strings.TrimSpace`: the ASCII model, overridden by what the harness told
+    us Go answers for non-ASCII strings -/
+def strOf (foldTab trimTab : List (Bytes × Bytes)) : Str :=
+  ⟨fun b => (foldTab.lookup b).getD (lower b), fun b => (trimTab.lookup b).getD (trimSpace b)⟩
+
+def St.str (st : St) : Str := strOf st.foldTab st.trimTab
 
 def ddump (s : State DKey DomPay) : String := dumpWith showDKey (showE showDomPay) s.now s.tab
 def fdump (s : State Bytes FwdPay) : String := dumpWith hexTok (showE showFwdPay) s.now s.tab
@@ -64,33 +77,43 @@ def common {K P : Type} [DecidableEq K] (self : Nat) (s : State K P) (dump : Sta
 def step (st : St) (line : String) : St × String :=
   match tokens line with
   | ["reset", self] => ({ self := natTok self }, "ok")
+  | ["oracle", kind, i, o] =>
+    match bytesOfHex i, bytesOfHex o with
+    | some a, some b =>
+      if kind = "fold" then ({ st with foldTab := (a, b) :: st.foldTab }, "ok")
+      else if kind = "trim" then ({ st with trimTab := (a, b) :: st.trimTab }, "ok")
+      else (st, "bad-op")
+    | _, _ => (st, "bad-op")
   -- domain table
   | ["dadd", pat, w, base, nh, orig, metric, seq, path] =>
     match bytesOfHex pat, bytesOfHex base with
     | some p, some b =>
       let e := mkEntry (⟨p, w == "1", b⟩ : DomPay) nh orig metric seq path st.d.now
-      let (t', ok) := addRoute domCfg st.self st.d.tab e
+      let (t', ok) := addRoute (domCfg st.str) st.self st.d.tab e
       let s' : State DKey DomPay := ⟨st.d.now, t'⟩
       ({ st with d := s' }, s!"{ok} ; {ddump s'}")
     | _, _ => (st, "bad-op")
   | ["dadv", pat, nh, orig, metric, seq, path] =>
     match bytesOfHex pat with
     | some p =>
-      let e := mkEntry (payOfPattern p) nh orig metric seq path st.d.now
-      let (t', ok) := addRoute domCfg st.self st.d.tab e
+      let e := mkEntry (payOfPattern st.str p) nh orig metric seq path st.d.now
+      let (t', ok) := addRoute (domCfg st.str) st.self st.d.tab e
       let s' : State DKey DomPay := ⟨st.d.now, t'⟩
       ({ st with d := s' }, s!"{ok} ; {ddump s'}")
     | none => (st, "bad-op")
   | ["drm", pat, orig] =>
     match bytesOfHex pat with
     | some p =>
-      let (t', ok) := domRemove st.d.tab p (natTok orig)
+      let (t', ok) := domRemove st.str st.d.tab p (natTok orig)
       let s' : State DKey DomPay := ⟨st.d.now, t'⟩
       ({ st with d := s' }, s!"{ok} ; {ddump s'}")
     | none => (st, "bad-op")
   | ["dlook", name] =>
     match bytesOfHex name with
-    | some n => (st, showOptE showDomPay st.d.now (domLookup st.d.tab n))
+    | some n =>
+      match domLookup st.str st.d.tab n with
+      | none => (st, "none")
+      | some r => (st, showHead (showE showDomPay st.d.now) (get st.d.tab (domKey st.str r.pay)))
     | none => (st, "bad-op")
   -- forward table
   | ["fadd", key, target, nh, orig, metric, seq, path] =>
@@ -110,7 +133,7 @@ def step (st : St) (line : String) : St × String :=
     | none => (st, "bad-op")
   | ["flook", key] =>
     match bytesOfHex key with
-    | some k => (st, showOptE showFwdPay st.f.now (fwdLookup st.f.tab k))
+    | some k => (st, showHead (showE showFwdPay st.f.now) (get st.f.tab k))
     | none => (st, "bad-op")
   -- agent table
   | ["aadd", ag, nh, orig, metric, seq, path] =>
@@ -122,12 +145,12 @@ def step (st : St) (line : String) : St × String :=
     let (t', ok) := removeRoute st.a.tab (natTok ag) (natTok orig)
     let s' : State Nat Nat := ⟨st.a.now, t'⟩
     ({ st with a := s' }, s!"{ok} ; {adump s'}")
-  | ["alook", ag] => (st, showOptE toString st.a.now (agLookup st.a.tab (natTok ag)))
+  | ["alook", ag] => (st, showHead (showE toString st.a.now) (get st.a.tab (natTok ag)))
   | ["aroutes", ag] =>
-    (st, " ".intercalate ("routes" :: (get st.a.tab (natTok ag)).map (showE toString st.a.now)))
+    (st, " ".intercalate ("routes" :: renderGroup (showE toString st.a.now) (get st.a.tab (natTok ag))))
   | ["dhas", pat, orig] =>
     match bytesOfHex pat with
-    | some p => (st, toString (!p.isEmpty && hasRoute st.d.tab (domRemoveKey p) (natTok orig)))
+    | some p => (st, toString (!p.isEmpty && hasRoute st.d.tab (domRemoveKey st.str p) (natTok orig)))
     | none => (st, "bad-op")
   | ["fhas", key, orig] =>
     match bytesOfHex key with
@@ -157,9 +180,17 @@ def step (st : St) (line : String) : St × String :=
     else (st, "bad-op")
   | _ => (st, "bad-op")
 
+/-- `mdlook` / `mflook` / `malook` (the Manager's lookups) are the table lookups -/
+def unalias (line : String) : String :=
+  match tokens line with
+  | ["mdlook", name] => s!"dlook {name}"
+  | ["mflook", key] => s!"flook {key}"
+  | ["malook", ag] => s!"alook {ag}"
+  | _ => line
+
 /-- `step` plus the `race` op (`race <n> | op | op …`, all ops on one table) -/
 def stepR (st : St) (line : String) : St × String :=
-  if line.trimAscii.toString.startsWith "race" then raceRun step st line else step st line
+  if line.trimAscii.toString.startsWith "race" then raceRun step st line else step st (unalias line)
 
 /-! ### `spec`: the statement of C09 evaluated on the implementation's own answers -/
 
@@ -195,18 +226,18 @@ def parseDumpWith {P : Type} (parseP : String → Option P) (out : String) : Opt
 
 /-- Executable domain statement: stored; applies; no exact route applies when a wildcard is
     answered; no applicable route of the same kind is cheaper; `none` only when nothing applies. -/
-def specDom (tab : List (Entry DomPay)) (d : Bytes) (answer : List String) : String :=
+def specDom (S : Str) (tab : List (Entry DomPay)) (d : Bytes) (answer : List String) : String :=
   match answer with
-  | ["none"] => if tab.any (fun e => matchesB e.pay d) then "fail dom-missed" else "ok"
+  | ["none"] => if tab.any (fun e => matchesB S e.pay d) then "fail dom-missed" else "ok"
   | ["route", tok] =>
     match parseCommon parseDomPay tok with
     | none => "fail unparsable-answer"
     | some r =>
       if !tab.contains r then "fail dom-not-stored"
-      else if !matchesB r.pay d then "fail dom-not-applicable"
-      else if r.pay.isWild && tab.any (fun e => !e.pay.isWild && matchesB e.pay d) then
+      else if !matchesB S r.pay d then "fail dom-not-applicable"
+      else if r.pay.isWild && tab.any (fun e => !e.pay.isWild && matchesB S e.pay d) then
         "fail dom-exact-not-preferred"
-      else if tab.any (fun e => matchesB e.pay d && e.pay.isWild == r.pay.isWild &&
+      else if tab.any (fun e => matchesB S e.pay d && e.pay.isWild == r.pay.isWild &&
           decide (e.metric < r.metric)) then "fail dom-not-lowest-metric"
       else "ok"
   | _ => "fail unparsable-answer"
@@ -229,6 +260,8 @@ def specKey {P K : Type} [DecidableEq P] [DecidableEq K] (parseP : String → Op
 
 structure SpecSt where
   self : Nat := 0
+  foldTab : List (Bytes × Bytes) := []
+  trimTab : List (Bytes × Bytes) := []
   d : List (Entry DomPay) := []
   f : List (Entry FwdPay) := []
   a : List (Entry Nat) := []
@@ -247,7 +280,9 @@ def specRace (st : SpecSt) (op out : String) : SpecSt × String :=
   let tbl := raceTable op
   let ms : St := {
     self := st.self
-    d := ⟨baseNow, rebuild domKey (parseCommon parseDomPay) baseNow st.dt⟩
+    foldTab := st.foldTab
+    trimTab := st.trimTab
+    d := ⟨baseNow, rebuild (domKey (strOf st.foldTab st.trimTab)) (parseCommon parseDomPay) baseNow st.dt⟩
     f := ⟨baseNow, rebuild (·.key) (parseCommon parseFwdPay) baseNow st.ft⟩
     a := ⟨baseNow, rebuild id (parseCommon parseAgPay) baseNow st.atk⟩ }
   let (_, expected) := stepR ms op
@@ -266,10 +301,26 @@ def specStep (st : SpecSt) (l : String) : SpecSt × String :=
     if out.startsWith "panic" || out.startsWith "crash" then (st, "fail crashed")
     else match tokens op with
       | ["reset", self] => ({ self := natTok self }, "ok")
+      | ["oracle", kind, i, o] =>
+        match bytesOfHex i, bytesOfHex o with
+        | some a, some b =>
+          if out != "ok" then (st, "fail bad-oracle")
+          else if kind = "fold" then ({ st with foldTab := (a, b) :: st.foldTab }, "ok")
+          else ({ st with trimTab := (a, b) :: st.trimTab }, "ok")
+        | _, _ => (st, "bad-op")
       | "race" :: _ => specRace st op out
+      | ["mdlook", name] =>
+        match bytesOfHex name with
+        | some n => (st, specDom (strOf st.foldTab st.trimTab) st.d n (tokens out))
+        | none => (st, "bad-op")
+      | ["mflook", key] =>
+        match bytesOfHex key with
+        | some k => (st, specKey parseFwdPay (·.key) st.f k (tokens out))
+        | none => (st, "bad-op")
+      | ["malook", ag] => (st, specKey parseAgPay id st.a (natTok ag) (tokens out))
       | ["dlook", name] =>
         match bytesOfHex name with
-        | some n => (st, specDom st.d n (tokens out))
+        | some n => (st, specDom (strOf st.foldTab st.trimTab) st.d n (tokens out))
         | none => (st, "bad-op")
       | ["flook", key] =>
         match bytesOfHex key with
